@@ -160,6 +160,14 @@ impl C09 {
         );
         let mut letters = dedup_by_parse(letters);
         let mut expandable = vec![false; letters.len()];
+        // administrator credentials that are nearly right: a prefix (here: nothing), an extension, another case,
+        // the right password under a nearly right user name, fields swapped or missing
+        for l in ["auth u", "auth", "auth u pp", "auth u px", "auth u P", "auth uu p", "auth U p", "auth  p", "auth p u", "auth u  p", "auth u p p"] {
+            if !letters.iter().any(|x| x == l) {
+                letters.push(l.to_string());
+                expandable.push(true);
+            }
+        }
         for l in ["auth u wrong", "use-db t tok", "use-db t wrong", "use-db t bob bt", "use-db t bob wrong", "use-db nodb tok", "use-db u tok2", "use-db t eve e1"] {
             if !letters.iter().any(|x| x == l) {
                 letters.push(l.to_string());
@@ -293,6 +301,18 @@ impl SeqModel for C09 {
         };
         match classify(&req) {
             Need::Free => {
+                if let Request::Auth { user, password } = &req {
+                    // only the administrator's exact user name and password authenticate
+                    let valid = user == USER && password == PWD;
+                    if !valid {
+                        if !admin_auth && w.sess.client.is_admin_auth() {
+                            return v("wrong-admin-credentials-accepted", format!("`{}` (user {:?}, password {:?}) authenticated the session; reply {:?}", line, user, password, o));
+                        }
+                        if after != before {
+                            return v("unauthorized-command-changed-state", format!("`{}` (wrong administrator credentials): {} -> {}", line, before, after));
+                        }
+                    }
+                }
                 if let Request::UseDb { name, token, user_name } = &req {
                     let valid = with_db(&w.node.dbs, name, |db| {
                         let d = dump_db(db);
